@@ -1038,6 +1038,35 @@ func (in *Interp) sliceOp(instr *ssa.Slice, x, lo, hi, max value) value {
 	case bstr:
 		Len = len(x)
 	case *sym:
+		// solver-level string with concrete bounds: one bounds check, then str.substr
+		lc, lok := lo.(uint64)
+		hc, hok := hi.(uint64)
+		if (lo == nil || lok) && (hi == nil || hok) {
+			need := lc
+			if hi != nil && hc > need {
+				need = hc
+			}
+			if hi != nil && lc > hc {
+				in.runtimePanic("slice bounds out of range")
+			}
+			if need > 0 {
+				short := in.mk(sBool, 0, fmt.Sprintf("(< (str.len %s) %d)", x.t, need))
+				if in.branch(short, "strslice-bounds") {
+					in.runtimePanic(fmt.Sprintf("slice bounds out of range [:%d] with a shorter string", need))
+				}
+			}
+			var t string
+			if hi == nil {
+				t = fmt.Sprintf("(str.substr %s %d (str.len %s))", x.t, lc, x.t)
+			} else {
+				t = fmt.Sprintf("(str.substr %s %d %d)", x.t, lc, hc-lc)
+			}
+			r := in.mk(sStr, 0, t)
+			if m, ok := in.strMax[x.t]; ok {
+				in.strMax[r.t] = m
+			}
+			return r
+		}
 		b := in.concretizeString(x)
 		return in.sliceOp2(instr, b, lo, hi, max, len(b), len(b))
 	case []value:
